@@ -100,8 +100,8 @@ def run(ctx):
     d = ctx.tlc_dir("num")
     res = ctx.tlc(d, "MCEm", "MCEm.cfg", workers=1, timeout=600)
     cases = list(res.tagged("CASE"))
-    if len(cases) != 12:
-        raise MachineryError("expected 12 em cases")
+    if len(cases) != 20:
+        raise MachineryError("expected 20 em cases")
     ctx.exhaustive = True
     pmap(ctx, replay, cases, procs=1)
     if ctx.notes.get("standin_constants_not_effective"):
